@@ -23,7 +23,7 @@ CHECKS = {
         "design": "DESIGN.md section 5 C01",
     },
     "C11": {
-        "text": "Coq, sequential clause, over the reference map for all states and clock windows: after the expiry instant no value-reading call (get, CAS, update_ttl, range) returns the value; before it (or without expiry) the value is returned and no call other than a delete of that key removes it; recovery keeps every unexpired key; a TTL-only update keeps the value. Coq, concurrent clause, over Model/Sweep.v (the sweeper's sample / guarded removal and the lazy retirement of read-modify-write calls, racing with writers that renew, replace or delete the key, under a clock that only grows), for every schedule: the current generation of a key nobody writes stays in the table for as long as it is unexpired; every removal by expiry took out the key's current generation, expired at the wall clock of the removal; generation identities only move forward and a key removed by expiry stays absent until written again; a read never returns an expired generation. Ties: the whole-sequence correspondence of C01 in TTL-on configurations with expiries placed before/after the wall clock, including flush+reopen; T-sched for the sweeper and for lazy retirement (hook H9: the real sweeper thread parked after its sample and before each guarded removal, and an atomic_increment parked between seeing its counter expired and retire_expired_if_current, while the key is renewed, deleted or read) replayed by the extracted model; real-time runs with and without the sweeper judged against the wall clock; absolute expiry surviving restart bit for bit is C10's codec round trip plus the whole-file check.",
+        "text": "Coq, sequential clause, over the reference map for all states and clock windows: after the expiry instant no value-reading call (get, CAS, update_ttl, range) returns the value; before it (or without expiry) the value is returned and no call other than a delete of that key removes it; recovery keeps every unexpired key; a TTL-only update keeps the value. Coq, concurrent clause, over Model/Sweep.v (the sweeper's sample / guarded removal and the lazy retirement of read-modify-write calls, racing with writers that renew, replace or delete the key, under a clock that only grows), for every schedule: the current generation of a key nobody writes stays in the table for as long as it is unexpired; every removal by expiry took out the key's current generation, expired at the wall clock of the removal; generation identities only move forward and a key removed by expiry stays absent until written again; a read never returns an expired generation. Ties: the whole-sequence correspondence of C01 in TTL-on configurations with expiries placed before/after the wall clock, including flush+reopen; T-sched for the sweeper and for lazy retirement (hook H9: the real sweeper thread parked after its sample and before each guarded removal, and an atomic_increment parked between seeing its counter expired and retire_expired_if_current, while the key is renewed, deleted or read) replayed by the extracted model; real-time runs with and without the sweeper judged against the wall clock; absolute expiry surviving restart bit for bit is C10's codec round trip plus the whole-file check. Recovery at the byte level (Model/Recovery.v): after the scan has kept the newest generation of every key, the expiry pass over the whole index leaves a key exposed exactly when its newest generation on the device has not expired; a key whose newest generation has expired is absent although older generations of it are on the device.",
         "note": TRUST + " Not decided here: the 1 ns clock boundary (real-time runs leave 150 ms either side of the expiry instant unjudged); the lazy-retirement tie parks atomic_increment only (the one caller of retire_expired_if_current); crash points inside recovery and older-generation resurrection over crashes are C04's machinery (finding F1, fixed).",
         "design": "DESIGN.md section 5 C11",
     },
